@@ -30,7 +30,7 @@ ASSUMPTIONS = ['refjs (recursive-descent ES5.1 front end written from ECMA-262 5
                'early errors are not checked by either side; FunctionDeclaration is admitted as a Statement; '
                'Annex B forms and escaped identifiers are counted oracle_uncertain, never violations']
 BUDGET_S = {'quick': 75, 'thorough': 900}
-REQUIRED_HITS = ['parse', 'refjs', 'production_reduced', 'parser_variant']
+REQUIRED_HITS = ['parse', 'refjs', 'production_reduced', 'parser_variant', 'multiline_token']
 FLOOR = {'quick': 5000, 'thorough': 60000}
 
 ALPHABET = ['a', '1', "'s'", '/', '(', ')', '{', '}', '[', ']', ';', ',', ':', '?', '.', '=', '+', '++',
@@ -295,6 +295,9 @@ def run(ctx):
             for text in work.identifier_escape_texts():
                 check_text(ctx, text, 'identifier_escape', 9, 8)
                 ctx.hit('identifier_escape')
+            for text in work.multiline_token_texts():
+                check_text(ctx, text, 'multiline_token', 9, 8)
+                ctx.hit('multiline_token')
 
         def opts_fn(i, rng):
             return jsgen.Opts(clean=(i % 3 != 0), unicode_idents=(i % 5 == 0),
